@@ -11,7 +11,8 @@ Order token (space free), 22 comma separated fields:
 Ops → output
 * `digest O`                → `ok:<hex sha256>` | `err:<kind>`
 * `parse version lease R sel`  → `ok O` | `err:<kind>`   (R = `traderKey,rate,amt,fee,nonce,minUnits,chanType,auctionType,public,allowed,notAllowed`, id lists `len:valid/…` or `-`)
-* `prepare O k`             → `ok:<k>.<hex digest>`   (signer key and message of `PrepareOrder`)
+* `reset`                   → `ok`   (new client database)
+* `prepare O k`             → `ok:<k>.<hex digest>` (signer key and message of `PrepareOrder`) | `err:exists`
 * `submit O sig msKey node` → `ok <transmitted fields> <digest re-derived from them>` | `err:<kind>`
 -/
 namespace Pool.C12
@@ -21,7 +22,7 @@ def sha (b : Bytes) : Bytes := Pool.Sha256.sha256 b
 
 def errName : Err → String
   | .digestVersion => "digest-version" | .facts => "facts" | .channelType => "channel-type"
-  | .nodeTier => "node-tier" | .wire => "wire"
+  | .nodeTier => "node-tier" | .wire => "wire" | .exists => "exists"
 
 def pBool (s : String) : Option Bool :=
   if s == "1" then some true else if s == "0" then some false else none
@@ -96,8 +97,9 @@ def parseErrName : ParseErr → String
   | .channelType => "channel-type" | .bothLists => "both-lists" | .allowedId => "allowed-id"
   | .notAllowedId => "not-allowed-id"
 
-abbrev DrvSt := Unit
-def drvInit : DrvSt := ()
+/-- nonces on record in the client database of the current session -/
+abbrev DrvSt := List Bytes
+def drvInit : DrvSt := []
 
 def run (args : List String) : Option String :=
   match args with
@@ -108,11 +110,6 @@ def run (args : List String) : Option String :=
     pure (match parseRPCOrder v l d sel with
       | .ok o => "ok " ++ fOrder o
       | .error e => "err:" ++ parseErrName e)
-  | ["prepare", o, k] => do
-    let o ← pOrder o; let k ← k.toNat?
-    pure (match prepareOrderSig sha o k with
-      | .ok σ => s!"ok:{σ.signer}.{hex σ.msg}"
-      | .error e => "err:" ++ errName e)
   | ["submit", o, sg, ms, np] => do
     let o ← pOrder o; let sg ← unhex sg; let ms ← unhex ms; let np ← unhex np
     pure (match toWire o { rawSig := sg, multiSigKey := ms, nodePubkey := np } with
@@ -125,6 +122,15 @@ def run (args : List String) : Option String :=
   | _ => none
 
 def drvStep (s : DrvSt) (args : List String) : DrvSt × String :=
-  (s, (run args).getD "bad-op")
+  match args with
+  | ["reset"] => ([], "ok")
+  | ["prepare", o, k] =>
+    match pOrder o, k.toNat? with
+    | some o, some k =>
+      match prepareOrder sha s o k with
+      | (.ok σ, s') => (s', s!"ok:{σ.signer}.{hex σ.msg}")
+      | (.error e, s') => (s', "err:" ++ errName e)
+    | _, _ => (s, "bad-op")
+  | _ => (s, (run args).getD "bad-op")
 
 end Pool.C12
